@@ -279,6 +279,13 @@ func (w *World) runTCaller(ci int) {
 				l.Kill()
 				w.ServerUp[op.Addr] = false
 			}
+		case "cutall":
+			// the network drops every connection to the address; the server keeps listening
+			for _, p := range w.Net.Pipes {
+				if p.Addr == addr && p.Open() {
+					p.Cut(KindRST, "cutall")
+				}
+			}
 		case "restart":
 			if ts.down[op.Addr] {
 				w.Net.fault(FRestart)
@@ -714,7 +721,83 @@ func checkC15(w *World, run *simrt.Run) {
 	}
 }
 
+// ------------------------------------------------------------------ C04 through the Transport
+
+func genC04T(r *simrt.Rand, tier string, idx uint64) *Plan {
+	p := genTBase(r, "c04t")
+	ns := len(p.Servers)
+	nc := 1 + r.Intn(4)
+	for c := 0; c < nc; c++ {
+		cp := ClientPlan{}
+		for i := 0; i < 2+r.Intn(8); i++ {
+			op := genTCall(r, ns)
+			if r.Chance(1, 2) {
+				op.Flags, op.Arg = FlSlow, uint32(1000*(1+r.Intn(400)))
+			}
+			cp.Ops = append(cp.Ops, op)
+			if r.Chance(1, 4) {
+				cp.Ops = append(cp.Ops, Op{Kind: "sleep", N: 1000 * r.Intn(500)})
+			}
+		}
+		cp.Ops = append(cp.Ops, Op{Kind: "wait"})
+		p.Clients = append(p.Clients, cp)
+	}
+	// connection drops while calls are pending; the servers stay reachable
+	fc := ClientPlan{}
+	for k := 0; k < 1+r.Intn(3); k++ {
+		fc.Ops = append(fc.Ops, Op{Kind: "sleep", N: 1000 * r.Intn(600)}, Op{Kind: "cutall", Addr: r.Intn(ns)})
+		if r.Chance(1, 4) {
+			a := r.Intn(ns)
+			fc.Ops = append(fc.Ops, Op{Kind: "kill", Addr: a}, Op{Kind: "sleep", N: 1000 * r.Intn(300)}, Op{Kind: "restart", Addr: a})
+		}
+	}
+	p.Clients = append(p.Clients, fc)
+	return p
+}
+
+func checkC04T(w *World, run *simrt.Run) {
+	execs := map[uint64]int{}
+	for _, e := range w.Execs {
+		if !e.Stream {
+			execs[e.ID]++
+			if c := w.byID[e.ID]; c == nil {
+				w.Violate("C04.phantom-execution", "phantom-execution", fmt.Sprintf("handler ran for id %d which no caller sent", e.ID))
+			} else if !e.ArgOK || e.ArgLen != c.Size {
+				w.Violate("C04.wrong-arguments", "wrong-arguments", descCall(c))
+			}
+		}
+	}
+	frames := map[uint64]int{}
+	for _, p := range w.Net.Pipes {
+		for _, f := range DecodeStream(p.Dir(0).Log, w.P.Header, true) {
+			if f.Stream == 0 && !f.Heartbeat && len(f.Body) > 0 {
+				if id := BodyID(f.Body, w.P.Codec); w.byID[id] != nil {
+					frames[id]++
+				}
+			}
+		}
+	}
+	for _, c := range w.Calls {
+		if c.Form == "ping" {
+			continue
+		}
+		if execs[c.ID] > 1 {
+			w.Violate("C04.duplicate-execution", "duplicate-execution-through-transport:"+c.Form, fmt.Sprintf("%s: handler ran %d times", descCall(c), execs[c.ID]))
+		}
+		if frames[c.ID] > 1 {
+			w.Violate("C04.retry", "request-sent-more-than-once:"+c.Form, fmt.Sprintf("%s: %d request frames on the wire (the Transport must surface errors, not retry)", descCall(c), frames[c.ID]))
+		}
+		if c.Returned && c.Err == "" && execs[c.ID] != 1 {
+			w.Violate("C04.success-without-execution", "success-executions!=1:"+c.Form, fmt.Sprintf("%s: reported successful, executed %d times", descCall(c), execs[c.ID]))
+		}
+		if c.Returned && c.Err != "" && execs[c.ID] == 1 {
+			w.Probe("failed-call-was-executed-once")
+		}
+	}
+}
+
 func init() {
+	register(&Scenario{Property: "C04", Name: "c04t", Gen: genC04T, Main: (*World).RunTransportWorld, Check: checkC04T})
 	register(&Scenario{Property: "C13", Name: "c13", Gen: genC13, Main: (*World).RunTransportWorld, Check: checkC13})
 	register(&Scenario{Property: "C14", Name: "c14", Gen: genC14, Main: (*World).RunTransportWorld, Check: checkC14})
 	register(&Scenario{Property: "C15", Name: "c15", Gen: genC15, Main: (*World).RunTransportWorld, Check: checkC15})
